@@ -182,3 +182,36 @@ Proof.
       | (apply ROptSome; apply RNewType; apply RPrim)
       | progress cbn [fst snd field_ty e1_cd cd_types assoc N.eqb Pos.eqb] ].
 Qed.
+
+(* ---- TypedDicts (gen/typeddicts.py), no overrides ----
+   For EVERY TypedDict definition fs (required and NotRequired keys), per-key unstructure / structure
+   handlers that invert each other on the instance's values (identity unstructure handlers, which the
+   generator skips, included), and EVERY instance d that has its required keys (NotRequired keys present
+   or absent, undeclared keys allowed unless forbid_extra_keys): unstructuring d and structuring the
+   result with either template gives d back -- every key in its original position. *)
+From V.Model Require Import TdTemplates.
+From V.Proofs Require Import TdProofs TdRoundtrip.
+Theorem C01_typeddict_roundtrip :
+  forall (V : Type) (opt : tdopts) (hu hs : N -> V -> result V) (idh : N -> bool) (d : list (N * V)) (fs : list tdfield),
+    NoDup (keys d) ->
+    (forall f, In f fs -> d_required f = true -> In (d_name f) (keys d)) ->
+    (forall f v, In f fs -> assoc d (d_name f) = Some v ->
+       if idh (d_name f) then hs (d_name f) v = Ok v
+       else exists w, hu (d_name f) v = Ok w /\ hs (d_name f) w = Ok v) ->
+    (td_forbid opt = true -> forall k, In k (keys d) -> In k (map d_name fs)) ->
+    exists u, td_unstruct V (fun _ => neutral) hu idh fs d = Ok u /\
+      let p := match u with Some x => x | None => d end in
+      to_opt (td_detailed V opt (fun _ => neutral) hs fs (dict_obj p)) = Some (Some d) /\
+      to_opt (td_fast V opt (fun _ => neutral) hs fs (dict_obj p)) = Some (Some d).
+Proof. intros V opt hu hs idh d fs H1 H2 H3 H4. exact (td_roundtrip V opt hu hs idh d H1 fs H2 H3 H4). Qed.
+Print Assumptions C01_typeddict_roundtrip.
+
+Example C01_typeddict_nonvacuous :
+  let fs := [{| d_name := 1; d_required := true |}; {| d_name := 2; d_required := false |}; {| d_name := 3; d_required := true |}] in
+  let opt := {| td_cl := 4; td_forbid := false; td_skip_self_rename := true |} in
+  let hu := fun (k v : N) => Ok (v + k)%N in
+  let hs := fun (k v : N) => if N.eqb k 3 then Ok v else if N.ltb v k then Err EValue else Ok (v - k)%N in
+  let idh := fun k => N.eqb k 3 in
+  td_unstruct N (fun _ => neutral) hu idh fs [(3, 30); (9, 90); (1, 10)]%N = Ok (Some [(3, 30); (9, 90); (1, 11)]%N)
+  /\ td_fast N opt (fun _ => neutral) hs fs (dict_obj [(3, 30); (9, 90); (1, 11)]%N) = Ok (Some [(3, 30); (9, 90); (1, 10)]%N).
+Proof. vm_compute. split; reflexivity. Qed.
